@@ -24,13 +24,14 @@ def client_ns(tok):
 
 
 class BbGen(object):
-    def __init__(self, rng, strict, n_clients, stream, statics):
+    def __init__(self, rng, strict, n_clients, stream, statics, sset=False):
         self.rng = rng
         self.strict = strict          # no self-aliasing / remap changes (so batch unregistration is deterministic)
         self.ns = []
         self.attempts = []            # per client: {abs key: loc}
         self.stream = stream
         self.statics = statics
+        self.sset = sset
         self.n_clients = n_clients
         self.dead = set()             # clients that called unregister(): using them afterwards is out of scope
 
@@ -144,6 +145,8 @@ class BbGen(object):
                 return "sexists " + key + rng.choice(["", ".p", ".q.r"])
             if x < 0.8:
                 return "sunset " + key
+            if self.sset:
+                return "sset %s%s %s" % (key, rng.choice(["", "", ".p", ".q.r"]), v)
             return "sget " + key
         if r < 0.97 and self.stream:
             x = rng.random()
@@ -155,10 +158,10 @@ class BbGen(object):
         return "get %d %s" % (c, self.name_for(c))
 
 
-def gen_scenario(rng, name, strict=None, stream=True, statics=True, min_ops=10, max_ops=60):
+def gen_scenario(rng, name, strict=None, stream=True, statics=True, min_ops=10, max_ops=60, sset=False):
     if strict is None:
         strict = rng.random() < 0.7
-    g = BbGen(rng, strict, rng.choice([2, 3, 4]), stream, statics)
+    g = BbGen(rng, strict, rng.choice([2, 3, 4]), stream, statics, sset)
     ops = []
     if stream and rng.random() < 0.6:
         ops.append("stream on %d" % rng.choice([0, 1, 2, 3, 5, 50]))
